@@ -180,11 +180,11 @@ pub fn take_until_unbalanced<'a>(
             } else if tag::<&str, Input<'_>, Error<Input<'_>>>(closing_tag)(input).is_ok() {
                 bracket_counter -= 1;
                 index += closing_tag.len();
-            } else if index == i.len() - 1 {
-                break 'consume;
-            } else {
-                let c = i.slice(index..).inner().chars().next().unwrap_or_default();
+            } else if let Some(c) = i.slice(index..).inner().chars().next() {
                 index += c.len_utf8();
+            } else {
+                // End of input
+                break 'consume;
             }
 
             // We found the unmatched closing bracket.
